@@ -1042,6 +1042,12 @@ def sc_orth(V, P, cfg):
     k = cfg["k"]
     u, roots = _orth_input(V, cfg)
     rtol = V.const("1e-15")
+    if V.symbolic and k >= 3:
+        # k = 3: columns that are not numerically dependent (the drop branch of the zero_rtol test is covered for k = 2; after a
+        # dropped column the remaining norms are no rational squares any more)
+        u2 = _sqnorm_cols(np.asarray(u))
+        for j in range(1, k):
+            V.assume(roots[j] * roots[j] >= rtol * u2[j], "orth, k = 3: no column within zero_rtol of the span of its predecessors")
     restore = None
     if V.symbolic:
         from symx import npshim
